@@ -972,6 +972,68 @@ def r07_15(run, model):
                        "Go backend: ty=TEnum(Opt), args=[TInt32]`")
 
 
+def r07_23(run, model):
+    run.rule("R07.23", "an instance is filed and built from the same type arguments: TypeMono::ensure_instance memoises under `(name, args)` and "
+                       "substitutes `args` into the definition's fields, whose nested applications come back to ensure_instance with the "
+                       "substituted arguments as their key - so the elements of `args` enter the substitution as they are (cloned), never "
+                       "through a function that rewrites them first (a collapsed argument gives the recursive field another key and a "
+                       "second instance under another name)")
+    f = model.fn("ensure_instance", MONO, impl="TypeMono")
+    keyed = any(c["k"] == "MethodCall" and c["method"] in ("to_vec", "to_owned", "clone") and c["recv"]["k"] == "Path" and c["recv"]["segs"] == ["args"]
+                for c in S.walk(f.body))
+    PLAIN = {"clone", "cloned", "to_owned", "iter", "into_iter", "zip", "map", "enumerate", "collect", "insert", "push", "len", "is_empty", "copied", "to_vec"}
+    n, bad = 0, []
+    for g in model.scope_fns(f):
+        if g.body is None:
+            continue
+        argnames = {p["pat"].get("name") for p in g.params() if not p["self"] and re.search(r"\[\s*(tast::)?Ty\s*\]|Vec<\s*(tast::)?Ty\s*>", p["ty"] or "")}
+        if g is f:
+            argnames |= {"args"}
+        if not argnames:
+            continue
+        elems = {}  # element variable -> node that binds it
+        for loop in S.find(g.body, "For"):
+            if S.idents(loop["iter"]) & argnames:
+                for b in S.pat_bindings(loop["pat"]):
+                    elems[b] = loop
+        for c in S.walk(g.body):
+            if c["k"] == "MethodCall" and c["method"] in ("map", "for_each", "filter_map", "flat_map") and (S.idents(c["recv"]) & argnames):
+                for a in c["args"]:
+                    if a["k"] == "Closure":
+                        for pp in a["inputs"]:
+                            for b in S.pat_bindings(pp):
+                                elems[b] = a
+        par = S.Parents(g.body)
+        for x in S.walk(g.body):
+            if x["k"] == "Path" and len(x["segs"]) == 1 and x["segs"][0] in elems and S.span_contains(elems[x["segs"][0]]["sp"], x["sp"]):
+                n += 1
+                # the innermost call this use is an argument of (receivers of clone & co. are fine)
+                cur = x
+                for a in par.ancestors(x):
+                    if a["k"] in ("Ref", "Unary", "Paren", "Field", "Tuple"):
+                        cur = a
+                        continue
+                    if a["k"] == "MethodCall":
+                        if a["recv"] is cur and a["method"] in PLAIN:
+                            cur = a
+                            continue
+                        if a["method"] in PLAIN and a["recv"] is not cur:
+                            break  # insert(.., a.clone()) / push(a)
+                        bad.append((g, a, a["method"]))
+                    elif a["k"] == "Call":
+                        nm = S.callee_name(a) or "?"
+                        if nm not in ("Some", "Box::new", "new"):
+                            bad.append((g, a, nm))
+                    break
+    for g, a, nm in bad:
+        run.ob("R07.23", f"{g.name}|a type argument enters the substitution unchanged (not through {nm})", False, site(MONO, a["sp"]),
+               f"an element of the argument list is handed to `{nm}` on its way into the substitution",
+               witness="enum List[T] { Nil, Cons(T, List[T]) } at List[Opt[int32]]: the field List[T] becomes List[Opt__int32], a second instance "
+                       "`List__Opt__int32` next to `List__Opt[int32]`; the recursive field points at the wrong one")
+    run.ob("R07.23", "TypeMono::ensure_instance|key and substitution are built from one argument list", keyed and not bad, site(MONO, f.node["sp"]),
+           f"memo key built from `args`: {keyed}; uses of argument elements examined: {n}; rewritten on the way: {len(bad)}")
+
+
 def run(run, model):
     run.try_rule(r07_1, model)
     run.try_rule(r07_2, model, None, "C07")
@@ -993,6 +1055,7 @@ def run(run, model):
     run.try_rule(r07_20, model)
     run.try_rule(r07_21, model)
     run.try_rule(r07_22, model)
+    run.try_rule(r07_23, model)
     from rules import c19 as _c19
     run.rule("R07.14", "two instances of a generic enum never share a Go type name for a variant (shared with C19 R19.8: the clash count ranges over the specialised enums that are emitted)")
     run.try_rule(_c19.r19_8, model)
